@@ -25,3 +25,4 @@ for id in "$@"; do
 done
 # restore generated files to the real tree
 /venv/bin/python tools/py2lean.py --repo /repo --out lean/PGM/Generated >/dev/null 2>&1
+/venv/bin/python tools/py2flow.py --repo /repo --out lean/PGM/Generated >/dev/null 2>&1
